@@ -8,6 +8,7 @@ import NeumannModel.Paths.Model
     edge <id> <src> <dst> <d|u> <etype> <weight|-> <prop|-> -> ok
     path <s> <t> <nodeconds> <edgeconds>      -> ok <hops> n=<ids> e=<ids> | none | nonode <id>
     pathold <s> <t> <nodeconds> <edgeconds>   -> same, with the pre-fix neighbour rule
+    allpaths <s> <t>                          -> ok <hops> <count> <n.n/e;...> | none | nonode <id>
     wpath <s> <t>                             -> ok <cost> n=<ids> e=<ids> | none | neg <edge id> | nonode <id>
     trav <s> <out|in|both> <maxdepth> <etype|-> <nodeconds> <edgeconds> -> ok <sorted ids> | nonode <id>
     vpaths <s> <t> <min> <max> <out|in|both> <etypes|-> <cycles 0|1> <nodeconds> <edgeconds>
@@ -80,6 +81,11 @@ def pathsStep (g : Graph) (line : String) : Graph × String :=
   | ["pathold", s, t, nc, ec] => match s.toNat?, t.toNat?, parseConds nc, parseConds ec with
       | some s, some t, some nc, some ec => (g, showPathRes (findPathOld g (mkFlt g nc ec) s t))
       | _, _, _, _ => bad
+  | ["allpaths", s, t] => match s.toNat?, t.toNat? with
+      | some s, some t => (match findAllPaths g 1000 100 s t with
+          | .ok r => (g, s!"ok {r.hops} {r.paths.length} " ++ ";".intercalate (r.paths.map fun p => dots p.nodes ++ "/" ++ dots p.edges))
+          | .error e => (g, showErr e))
+      | _, _ => bad
   | ["wpath", s, t] => match s.toNat?, t.toNat? with
       | some s, some t => (match findWeightedPath g s t with
           | .ok p => (g, s!"ok {p.total} n={showNats p.nodes} e={showNats p.edges}")
